@@ -30,7 +30,8 @@ from .common import Driver, fields
 
 CLAIM = dict(
     text="Lean 4 theorems: forward-mode dual-number evaluation equals the symbolic derivative over any commutative "
-         "ring (sum/product/quotient/power/chain rules, +/ */ @ and named functions); numeric_grad returns, per "
+         "ring (sum/product/quotient/power/chain rules, +/ */ @ and named functions), and for polynomial expressions that "
+         "derivative is the coefficient of t in eval e (p + t*e_v); numeric_grad returns, per "
          "multi-index, the central difference with no other component perturbed and restores the point; "
          "numeric_jacobian's J[i,j] differentiates output i by input j; multi_grad_of_fn perturbs one parameter with "
          "the others at their original values; central differences are exact up to degree 2 and within M*h^2/6 for C^3 "
@@ -44,11 +45,12 @@ CLAIM = dict(
               "an exact rational oracle",
     design="7/C06")
 
-MODULES = ["Klong.Props.C06"]
+MODULES = ["Klong.Props.C06", "Klong.Props.C06Taylor"]
 THEOREMS = [
     "Klong.C06.dual_correct",
     "Klong.C06.dual_value",
     "Klong.C06.gradient_is_symbolic",
+    "Klong.C06.D_is_linear_coefficient",
     "Klong.C06.numgrad_is_central_diff",
     "Klong.C06.numgrad_shape",
     "Klong.C06.numgrad_restores",
@@ -56,12 +58,15 @@ THEOREMS = [
     "Klong.C06.multi_grad_separates",
     "Klong.C06.central_diff_exact_quadratic",
     "Klong.C06.numgrad_exact_quadratic",
+    "Klong.C06.central_diff_error",
+    "Klong.C06.numgrad_truncation",
 ]
 
 U64 = 2.0 ** -53
 U32 = 2.0 ** -24
 EPS = Fr(1, 10 ** 6)            # numeric_grad / numeric_jacobian default step on float64
-FLOOR = 1e-12                   # absolute floor (second-order rounding where the first-order bounds vanish)
+FLOOR = 1e-9                    # absolute floor where the derivative is (near) zero: truncation eps^2/6*|f'''| ~ 1e-12
+FLOOR_TIE = 1e-12               # the same for real-vs-exact-central-difference (second-order rounding only)
 RAT_FNS = ("sq", "cube", "recip")
 TRANS_FNS = ("sin", "cos", "exp", "log", "sqrt", "tanh")
 FN_DEFS = "sq::{x*x};cube::{x*x*x};recip::{1%x}"
@@ -414,8 +419,10 @@ def dn_fn(name, a):
         else:
             raise ValueError(name)
         d = fp * float(a.d)
+        # the local derivative is itself computed in floating point; 1 - tanh^2 cancels
+        fperr = 2.0 if name == "tanh" else abs(fp)
         return DN(f, d, abs(fp) * a.err + 4 * abs(f) + 1e-300,
-                  abs(fp) * a.derr + abs(fpp) * _a(a.d) * a.err + 6 * abs(d))
+                  abs(fp) * a.derr + abs(fpp) * _a(a.d) * a.err + 4 * fperr * _a(a.d) + 6 * abs(d))
     d = fp * a.d
     return DN(f, d, _a(fp) * a.err + 3 * _a(f), _a(fp) * a.derr + _a(fpp) * _a(a.d) * a.err + 4 * _a(d))
 
@@ -927,7 +934,10 @@ def judge(got, orc, backend, numeric, nops):
         # numeric differentiation on the torch backend: the step is 1e-6 (float64 is "supported")
         # but the function is evaluated through float32 tensors.  Is the deviation within what
         # float32 rounding of f explains?
-        noise = np.array([[4 * orc.err[a] * U32 / float(EPS)] * n for a in range(m)])
+        # (first order in the rounding of f, plus the quantisation of x +- eps itself where the
+        #  first-order term vanishes)
+        noise = np.array([[4 * orc.err[a] * U32 / float(EPS) + 32 * U32 * max(1.0, orc.err[a])] * n
+                          for a in range(m)])
         if not (np.abs(got - J) > tol + noise).any():
             kind = "float32-evaluation"
     return kind, J, tol, (int(i), int(j))
@@ -983,7 +993,7 @@ def run_case(ctx, model, real, fam, tree, params, forms=None, backends=None, qui
         C = np.array([[float(x) for x in r] for r in cd_rows], dtype=float).reshape(m, n)
         for i in range(m):
             sc = float(np.max(np.abs(J[i]))) if n else 0.0
-            trunc_ok[i, :] = np.abs(C[i] - J[i]) <= 2e-6 * sc + 1e-300
+            trunc_ok[i, :] = np.abs(C[i] - J[i]) <= 2e-6 * sc + 1e-10
         if not trunc_ok.all():
             # the *exact* central difference is already off by more than a fifth of the property's
             # tolerance: |f'''| h^2 is not << |f'| here, the point is outside the domain the property
@@ -1038,7 +1048,7 @@ def run_case(ctx, model, real, fam, tree, params, forms=None, backends=None, qui
         prog = program(form, body, env, as_int, tree)
         for backend in backends:
             case = dict(base, form=form, backend=backend, program=prog)
-            ctx.count((prog, backend))
+            ctx.count((prog, backend), nontrivial=nops >= 3)
             numeric = numeric_form(form, backend)
             status, val, fell_back = real.run(backend, prog)
             fclass = "jacobian" if form in JAC_FORMS + ["multi-partial"] else \
@@ -1109,7 +1119,7 @@ def run_case(ctx, model, real, fam, tree, params, forms=None, backends=None, qui
             # ---- tie: the real numeric result against the model's exact loop (IEEE allowance only)
             if numeric and cd_rows is not None and backend == "numpy":
                 C = np.array([[float(x) for x in r] for r in cd_rows], dtype=float).reshape(m, n)
-                allow = np.array([[4 * orc.err[i] * U64 / float(EPS) + 1e-12 * abs(C[i, j]) + 1e-300
+                allow = np.array([[4 * orc.err[i] * U64 / float(EPS) + 1e-12 * abs(C[i, j]) + FLOOR_TIE
                                    for j in range(n)] for i in range(m)])
                 if (np.abs(got - C) > allow).any():
                     i, j = np.argwhere(np.abs(got - C) > allow)[0]
@@ -1379,6 +1389,10 @@ FIXED = [
      {"x": [[Fr(3, 2), Fr(3)], [Fr(1, 2), Fr(5, 2)], [Fr(-1, 2), Fr(2)]]}),
     ("jac", ["join", [["mul", ["par", "x"], ["const", "1/2"]], ["const", "1/4"]]], {"x": [Fr(1), Fr(2)]}),
     ("jac", ["call", "recip", ["call", "cube", ["par", "x"]]], {"x": [Fr(1, 2)]}),
+    ("multi-jac", ["join", [["idx", ["par", "w"], 0],
+                            ["pow", ["pow", ["sub", ["par", "b"], ["idx", ["par", "w"], 2]], 2], -1]]],
+     {"w": [Fr(-5, 2), Fr(-3, 2), Fr(-1, 2)], "b": Fr(-3, 2)}),
+    ("vector", ["call", "tanh", ["idx", ["par", "x"], 2]], {"x": [Fr(3), Fr(3, 2), Fr(-1, 2)]}),
 ]
 
 
@@ -1393,7 +1407,8 @@ def run(ctx):
                 "denominator / log / sqrt argument >= 1/4, x forms f:>p, named, by symbol, p∇f, x∇f, ∇f, p∂g, "
                 ".jacobian, loss:>[..], [..]∂g, x numpy and torch; plus fixed cases from the test-suite and "
                 "instrumented-function runs of numeric_grad / numeric_jacobian / multi_grad_of_fn. "
-                "distinct = distinct (program text, backend); non-trivial = all")
+                "distinct = distinct (program text, backend); non-trivial = expression tree of at least 3 nodes "
+                "(bookkeeping runs: every run)")
     ctx.assumptions += [
         "tolerance: |returned - exact| <= 1e-5*max|grad row| + 4*E*u/eps for numeric differentiation (E = running "
         "rounding-error bound of a float64 evaluation of f, u = 2^-53), <= 1e-3*max|grad row| + float32 rounding of the "
